@@ -23,8 +23,16 @@ func main() {
 	survey := flag.String("survey-locks", "", "pkg.Type: print field accesses with locksets")
 	dump := flag.Bool("dump", false, "print the canonical obligation list (rule, construct, verdict) and exit 0")
 	extra := flag.String("extra", "", "JSON file with extra coverage info produced by the thorough driver (controls, N-version comparison)")
+	writeInv := flag.Bool("write-inventory", false, "write sa/inventory.txt from the repository's current function declarations")
 	describe := flag.Bool("describe", false, "print the registered properties with their decided / not decided clauses as JSON")
 	flag.Parse()
+	if *writeInv {
+		if err := writeInventory(*repo, inventoryPath()); err != nil {
+			fmt.Println(err)
+			os.Exit(2)
+		}
+		return
+	}
 	if *describe {
 		out := map[string]map[string]string{}
 		for id, p := range props {
@@ -75,6 +83,22 @@ func main() {
 	}
 	a.Tier = *tier
 	a.prop = p
+	if a.norm != nil {
+		a.Info("helper_normalisation", map[string]any{"functions_not_in_inventory": a.norm.NewFuncs, "inlined": a.norm.Inlined,
+			"removed": a.norm.Removed, "left_alone": a.norm.Skipped,
+			"note": "calls of functions unknown to the rule tables were inlined (x/tools inliner, semantics-preserving) before the analysis; see DESIGN 9.9"})
+		if d := os.Getenv("VERIF_NORM_DUMP"); d != "" {
+			for f, b := range a.norm.Overlay {
+				if _, changed := a.lineMaps[f]; changed {
+					dst := d + "/" + strings.TrimPrefix(f, *repo+"/")
+					os.MkdirAll(dst[:strings.LastIndex(dst, "/")], 0o755)
+					os.WriteFile(dst, b, 0o644)
+				}
+			}
+			fmt.Fprintf(os.Stderr, "normalisation: inlined %d, removed %d, skipped %d\n  %s\n  skipped: %s\n", len(a.norm.Inlined), len(a.norm.Removed), len(a.norm.Skipped),
+				strings.Join(a.norm.Inlined, "\n  "), strings.Join(a.norm.Skipped, "\n  "))
+		}
+	}
 	if *survey == "allocs" {
 		a.Rule("survey", 0, func() { a.surveyAllocSizes() })
 		return
